@@ -979,6 +979,8 @@ class _Simu(_IObserver, _params.Updatable, ABC):
 
         if isinstance(mesh, str):
             mesh = Load_Mesh(Folder.Join(self.__Get_meshes_folder(), mesh))
+            # a mesh read back from the disk: look for its modifications too
+            mesh._Add_observer(self)
 
         self.__mesh = mesh
 
